@@ -8,7 +8,7 @@ import sys
 import tempfile
 import types
 
-from . import kernel, procs, fsfaults
+from . import kernel, procs, fsfaults, diskfaults
 
 _REAL = {}
 
@@ -120,12 +120,18 @@ def installed(sim: kernel.Sim):
             m.platform = types.SimpleNamespace(node=lambda: 'simhost')
     if sim.fsfaults:
         fsfaults.install()
+    if sim.diskfault:
+        if sim.fsfaults:
+            raise kernel.HarnessError('a plan has either fsfaults or a diskfault')
+        diskfaults.install()
     real_rmdir = os.rmdir
     os.rmdir = _rmdir_racing_with_stragglers(real_rmdir)
     try:
         yield sim
     finally:
         os.rmdir = real_rmdir
+        if sim.diskfault:
+            diskfaults.uninstall()
         if sim.fsfaults:
             fsfaults.uninstall()
         for m, attr, val in saved_mod:
